@@ -351,6 +351,7 @@ func cmdOrch(args []string) {
 type counts struct {
 	tupleEvery               uint64
 	plain, race, cold, sweep uint64
+	hot, hotRace             uint64 // C07: runs in the hot index space (see HotBase)
 	maxOps                   int
 	chunk                    uint64
 }
@@ -382,6 +383,19 @@ func (o *orch) plan(scale float64) counts {
 	c.race = uint64(float64(c.race) * scale)
 	c.cold = uint64(float64(c.cold) * scale)
 	c.sweep = uint64(float64(c.sweep) * scale)
+	if o.prop == "C07" {
+		// budget for the hot index space: substantial only when the repository
+		// has accesses to shared state (package-level variables, sync, atomics)
+		c.hot, c.hotRace = 64, 32
+		if o.hotSites() > 0 {
+			c.hot, c.hotRace = 9600, 1600
+			if thorough {
+				c.hot, c.hotRace = 200000, 30000
+			}
+		}
+		c.hot = uint64(float64(c.hot) * scale)
+		c.hotRace = uint64(float64(c.hotRace) * scale)
+	}
 	if c.plain == 0 {
 		c.plain = 1
 	}
@@ -391,7 +405,46 @@ func (o *orch) plan(scale float64) counts {
 	return c
 }
 
+// hotSites: number of yield sites the instrumenter tagged as next to a
+// shared-state access (0 on a tree without package-level state).
+func (o *orch) hotSites() int {
+	if o.sitesFile == "" {
+		return 0
+	}
+	b, err := os.ReadFile(o.sitesFile)
+	if err != nil {
+		return 0
+	}
+	var rep struct {
+		HotSites int `json:"hot_sites"`
+	}
+	json.Unmarshal(b, &rep)
+	return rep.HotSites
+}
+
+// probeHotKinds runs the hot probe in a process of its own and restricts the
+// hot index space (for every child process, through the environment) to the
+// run shapes that touch shared state.
+func (o *orch) probeHotKinds() {
+	if o.prop != "C07" || o.hotSites() == 0 {
+		return
+	}
+	ctx, cancel := context.WithTimeout(context.Background(), 5*time.Minute)
+	defer cancel()
+	cmd := exec.CommandContext(ctx, o.plain, "hotprobe", "-seed", fmt.Sprint(o.seed))
+	cmd.Env = append(os.Environ(), "GOMAXPROCS=4")
+	out, _ := cmd.Output()
+	m := regexp.MustCompile(`(?m)^HOT-KINDS (\S+)$`).FindStringSubmatch(string(out))
+	if m == nil {
+		fmt.Println("jmsim: hot probe: no run shape touches shared state when run sequentially (or the probe died); the hot space uses all shapes")
+		return
+	}
+	os.Setenv("JMSIM_HOT_KINDS", m[1])
+	fmt.Println("jmsim: hot probe: run shapes that touch shared state:", m[1])
+}
+
 func (o *orch) search(scale float64) int {
+	o.probeHotKinds()
 	c := o.plan(scale)
 	o.maxOps = c.maxOps
 	if o.maxOps == 0 {
@@ -450,8 +503,24 @@ func (o *orch) search(scale float64) int {
 		jobs = append(jobs, mk("sweep", o.plain, idx+n, idx+n+1))
 	}
 	idx += c.sweep
-	fmt.Printf("jmsim: property=%s tier=%s VERIF_SEED=%d jobs=%d processes=%d (plain runs %d, race runs %d, cold race processes %d, sweeps %d)\n",
-		o.prop, o.tier, o.seed, o.par, len(jobs), c.plain, c.race, c.cold, c.sweep)
+	for n := uint64(0); n < c.hot; n += c.chunk {
+		to := n + c.chunk
+		if to > c.hot {
+			to = c.hot
+		}
+		jobs = append(jobs, mk("plain", o.plain, HotBase+n, HotBase+to, "-tuples", filepath.Join(o.dir, fmt.Sprintf("tuples-hot-%d.jsonl", n)), "-tuple-every", fmt.Sprint(c.tupleEvery*4)))
+	}
+	if o.raceBin != "" {
+		for n := uint64(0); n < c.hotRace; n += c.chunk / 2 {
+			to := n + c.chunk/2
+			if to > c.hotRace {
+				to = c.hotRace
+			}
+			jobs = append(jobs, mk("race", o.raceBin, HotBase+c.hot+n, HotBase+c.hot+to))
+		}
+	}
+	fmt.Printf("jmsim: property=%s tier=%s VERIF_SEED=%d jobs=%d processes=%d (plain runs %d, race runs %d, cold race processes %d, sweeps %d, hot-space runs %d+%d, hot sites %d)\n",
+		o.prop, o.tier, o.seed, o.par, len(jobs), c.plain, c.race, c.cold, c.sweep, c.hot, c.hotRace, o.hotSites())
 	timeout := 30 * time.Minute
 	if o.tier == "thorough" {
 		timeout = 5 * time.Hour
@@ -666,7 +735,7 @@ func (o *orch) isKnown(f found) *knownFinding {
 
 func (o *orch) reportViolation(f found) int {
 	fmt.Printf("jmsim: candidate violation class=%s sig=%q build=%s: %s\n", f.viol.Class, f.viol.Sig, f.build, trunc(f.viol.Detail, 600))
-	rf := ReplayFile{Property: o.prop, Build: f.build, Violation: f.viol, Workload: f.wl, Seed: o.seed, RaceText: f.race}
+	rf := ReplayFile{Property: o.prop, Build: f.build, Violation: f.viol, Workload: f.wl, Seed: o.seed, RaceText: f.race, HotKinds: os.Getenv("JMSIM_HOT_KINDS")}
 	if f.isRng {
 		rf.Note = fmt.Sprintf("found by the oracle process: replay runs worker range [%d,%d) of VERIF_SEED %d and then the oracle", f.rng[0], f.rng[1], o.seed)
 		rf.Workload.Note = fmt.Sprintf("range %d %d %d", f.rng[0], f.rng[1], o.maxOps)
@@ -768,6 +837,9 @@ func (o *orch) doReplay(path string) int {
 		return exitTrouble
 	}
 	o.prop = rf.Property
+	if rf.HotKinds != "" {
+		os.Setenv("JMSIM_HOT_KINDS", rf.HotKinds)
+	}
 	if strings.HasPrefix(rf.Workload.Note, "range ") {
 		var from, to uint64
 		var maxOps int
